@@ -1,7 +1,9 @@
 package vproof
 
 import (
+	"encoding/json"
 	"fmt"
+	"time"
 	"math/big"
 	"math/rand/v2"
 	"sort"
@@ -23,6 +25,7 @@ type reporter struct {
 	r    *lib.Run
 	mu   sync.Mutex
 	seen map[string]int
+	hung map[string]bool
 }
 
 // want reports whether a further witness of this class would still be written out
@@ -52,17 +55,48 @@ func (rp *reporter) viol(class string, idx int, brief string, w any) {
 	rp.r.Violation(class, idx, brief, w)
 }
 
-// guard runs fn and converts a panic inside Juno code into a violation with a
-// class that names the entry point and the operator that provoked it.
-func (rp *reporter) guard(idx int, where string, ctx func() any, fn func()) (panicked bool) {
-	defer func() {
-		if p := recover(); p != nil {
-			panicked = true
-			rp.viol("panic:"+where, idx, fmt.Sprintf("%s panicked: %v", where, p), map[string]any{"panic": fmt.Sprint(p), "input": ctx()})
-		}
+// watchdog is generous: a verification normally takes well under 10 ms.
+const watchdog = 90 * time.Second
+
+// guard runs fn (a call into Juno) and converts a panic into a violation with a
+// class that names the entry point and the operator that provoked it. The call is
+// watched: if it does not return within the watchdog the case is inconclusive
+// (never a verdict), the stuck goroutine is abandoned and the same entry
+// point/operator is not exercised again in this process.
+func (rp *reporter) guard(idx int, where string, ctx func() any, fn func()) (failed bool) {
+	rp.mu.Lock()
+	hung := rp.hung[where]
+	rp.mu.Unlock()
+	if hung {
+		rp.r.Count("skipped_after_watchdog["+where+"]", 1)
+		return true
+	}
+	done := make(chan any, 1)
+	go func() {
+		defer func() { done <- recover() }()
+		fn()
 	}()
-	fn()
-	return false
+	t := time.NewTimer(watchdog)
+	defer t.Stop()
+	select {
+	case p := <-done:
+		if p != nil {
+			rp.viol("panic:"+where, idx, fmt.Sprintf("%s panicked: %v", where, p), map[string]any{"panic": fmt.Sprint(p), "input": ctx()})
+			return true
+		}
+		return false
+	case <-t.C:
+		rp.mu.Lock()
+		rp.hung[where] = true
+		rp.mu.Unlock()
+		rp.r.Inconclusive("watchdog:" + where)
+		b, _ := json.Marshal(ctx())
+		if len(b) > 1500 {
+			b = b[:1500]
+		}
+		rp.r.Note(fmt.Sprintf("case %d: %s did not return within %s (inconclusive; input %s)", idx, where, watchdog, string(b)))
+		return true
+	}
 }
 
 // ---------------------------------------------------------------- trie under observation
